@@ -141,3 +141,284 @@ fn k2_feature_table() {
     }
     assert!(FType::count() == 26 && NodeKind::count() == 8 && NodeType::count() == 8);
 }
+
+// =====================================================================================
+// K3: Segment::apply_seg_mods  (C04 P1-P5, A2; C08 wf preservation; C14 frame is at Syllable level)
+// =====================================================================================
+use crate::rule::PlaceMod;
+
+pub(crate) fn pos0() -> Position { Position::new(0, 0, 0, 1) }
+pub(crate) fn new_alphas() -> RefCell<HashMap<char, Alpha>> { RefCell::new(HashMap::new()) }
+pub(crate) const POS: Option<ModKind> = Some(ModKind::Binary(BinMod::Positive));
+pub(crate) const NEG: Option<ModKind> = Some(ModKind::Binary(BinMod::Negative));
+
+pub(crate) fn any_binmod() -> Option<ModKind> {
+    let k: u8 = kani::any();
+    kani::assume(k < 3);
+    match k { 0 => None, 1 => POS, _ => NEG }
+}
+pub(crate) fn any_bin_nodes() -> [Option<ModKind>; 8] {
+    [any_binmod(), any_binmod(), any_binmod(), any_binmod(), any_binmod(), any_binmod(), any_binmod(), any_binmod()]
+}
+pub(crate) fn any_bin_feats() -> [Option<ModKind>; 26] {
+    let mut f = [None; 26];
+    let mut i = 0;
+    while i < 26 { f[i] = any_binmod(); i += 1; }
+    f
+}
+/// index of a node in NODES7 (Place has none)
+pub(crate) fn slot(n: NodeKind) -> usize {
+    match n { NodeKind::Root => 0, NodeKind::Manner => 1, NodeKind::Laryngeal => 2, NodeKind::Labial => 3, NodeKind::Coronal => 4, NodeKind::Dorsal => 5, NodeKind::Pharyngeal => 6, NodeKind::Place => 7 }
+}
+pub(crate) fn view7(s: &Segment) -> [Option<u8>; 7] {
+    [Some(s.root), Some(s.manner), Some(s.laryngeal), v_lab(&s.place), v_cor(&s.place), v_dor(&s.place), v_phr(&s.place)]
+}
+pub(crate) struct Exp { pub view: [Option<u8>; 7], pub contradictory: [bool; 7] }
+
+/// C04 as a spec function of (old view, matrix): named features get the named value; a positive feature
+/// (or +node) creates an absent sub-node with its other features negative; a negative feature of an absent
+/// sub-node does nothing; -node / -place removes; everything not named keeps its value.
+pub(crate) fn expected(o: &Segment, nodes: &[Option<ModKind>; 8], feats: &[Option<ModKind>; 26]) -> Exp {
+    let ov = view7(o);
+    let mut plus = [0u8; 7];
+    let mut minus = [0u8; 7];
+    let mut i = 0;
+    while i < 26 {
+        let (n, m) = MASK_TABLE[i];
+        if feats[i] == POS { plus[slot(n)] |= m } else if feats[i] == NEG { minus[slot(n)] |= m }
+        i += 1;
+    }
+    let mut view = [None; 7];
+    let mut contradictory = [false; 7];
+    let mut k = 0;
+    while k < 7 {
+        if k < 3 {
+            view[k] = Some((ov[k].unwrap() | plus[k]) & !minus[k]);
+        } else {
+            let nm = nodes[k + 1]; // nodes[] is indexed by NodeKind, which has Place at 3
+            let removed = nm == NEG || nodes[3] == NEG;
+            let created = nm == POS || plus[k] != 0;
+            contradictory[k] = removed && created;
+            let kept = ov[k].is_some() && !removed;
+            let base = if kept { ov[k].unwrap() } else { 0 };
+            view[k] = if created || kept { Some((base | plus[k]) & !minus[k]) } else { None };
+        }
+        k += 1;
+    }
+    Exp { view, contradictory }
+}
+
+//% props=C04,C08,C02 tier=quick kind=P timeout=900 pair=Segment::apply_seg_mods clause="P1-P5: binary matrix sets exactly the named features, for all wf segments x all 3^8 x 3^26 matrices"
+#[kani::proof]
+#[kani::unwind(28)]
+fn k3_apply_seg_mods_binary() {
+    let o = any_wf_segment();
+    let nodes = any_bin_nodes();
+    let feats = any_bin_feats();
+    let alphas = new_alphas();
+    let mut s = o;
+    let r = s.apply_seg_mods(&alphas, nodes, feats, pos0(), false);
+    let bad = nodes[0].is_some() || nodes[1].is_some() || nodes[2].is_some() || nodes[3] == POS;
+    assert!(r.is_err() == bad, "P5: +/-root, +/-manner, +/-laryngeal and +place are errors, nothing else is");
+    if let Err(e) = &r {
+        assert!(matches!(e, RuleRuntimeError::NodeCannotBeNone(..) | RuleRuntimeError::NodeCannotBeSome(..)), "P5: documented error kind");
+    } else {
+        let exp = expected(&o, &nodes, &feats);
+        let got = view7(&s);
+        let mut k = 0;
+        while k < 7 {
+            if !exp.contradictory[k] { assert!(got[k] == exp.view[k], "P2/P3: whole-view postcondition of a binary matrix"); }
+            k += 1;
+        }
+        let mut i = 0;
+        while i < 26 {
+            let (n, m) = MASK_TABLE[i];
+            if feats[i] == POS { assert!(s.feat_match(n, m, true), "P1: every +F holds afterwards"); }
+            if feats[i] == NEG { assert!(got[slot(n)].is_none() || got[slot(n)].unwrap() & m == 0, "P1: every -F is clear or its node absent"); }
+            i += 1;
+        }
+        assert!(wf_seg(&s), "P4: bundle stays well formed");
+        if nodes[3] == NEG && !(exp.contradictory[3] || exp.contradictory[4] || exp.contradictory[5] || exp.contradictory[6])
+            && nodes[4] != POS && nodes[5] != POS && nodes[6] != POS && nodes[7] != POS
+            && got[3].is_none() && got[4].is_none() && got[5].is_none() && got[6].is_none() {
+            assert!(s.place.raw_for_verif().is_none(), "-place leaves an absent place");
+        }
+    }
+    kani::cover!(r.is_ok() && o.place.raw_for_verif().is_none() && s.place.raw_for_verif().is_some());
+    kani::cover!(r.is_err());
+}
+
+pub(crate) fn any_alpha_value() -> Alpha {
+    let k: u8 = kani::any();
+    kani::assume(k < 4);
+    match k {
+        0 => Alpha::Feature(kani::any()),
+        1 => Alpha::Supra(kani::any()),
+        2 => { let n = any_node7(); let v: Option<u8> = kani::any(); kani::assume(node_val_ok(n, v)); Alpha::Node(n, v) }
+        _ => any_place_alpha(),
+    }
+}
+pub(crate) fn any_place_mod() -> PlaceMod {
+    let pm = PlaceMod::new(kani::any(), kani::any(), kani::any(), kani::any());
+    kani::assume(node_val_ok(NodeKind::Labial, pm.lab) && node_val_ok(NodeKind::Coronal, pm.cor) && node_val_ok(NodeKind::Dorsal, pm.dor) && node_val_ok(NodeKind::Pharyngeal, pm.phr));
+    pm
+}
+pub(crate) fn any_place_alpha() -> Alpha { Alpha::Place(any_place_mod()) }
+/// manual, "Nodes and Subnodes": an alpha holding a node used on a binary feature is positive iff the node is present
+pub(crate) fn alpha_truth(a: &Alpha) -> bool {
+    match a {
+        Alpha::Feature(b) | Alpha::Supra(b) => *b,
+        Alpha::Node(_, v) => v.is_some(),
+        Alpha::Place(pm) => pm.lab.is_some() || pm.cor.is_some() || pm.dor.is_some() || pm.phr.is_some(),
+    }
+}
+
+//% props=C04,C07,C08 tier=quick kind=P timeout=1200 pair=Segment::apply_seg_mods,Alpha::as_binary clause="A2: a bound alpha (or its inverse) on a feature behaves as the binary value it carries"
+#[kani::proof]
+#[kani::unwind(28)]
+fn k3_apply_alpha_feature() {
+    let o = any_wf_segment();
+    let i: usize = kani::any();
+    kani::assume(i < 26);
+    let inv: bool = kani::any();
+    let a = any_alpha_value();
+    let truth = alpha_truth(&a) != inv;
+    let alphas = new_alphas();
+    alphas.borrow_mut().insert('α', a);
+    let mut feats = [None; 26];
+    feats[i] = Some(ModKind::Alpha(if inv { AlphaMod::InvAlpha('α') } else { AlphaMod::Alpha('α') }));
+    let mut s = o;
+    let r = s.apply_seg_mods(&alphas, [None; 8], feats, pos0(), false);
+    assert!(r.is_ok());
+    let mut bin = [None; 26];
+    bin[i] = if truth { POS } else { NEG };
+    let exp = expected(&o, &[None; 8], &bin);
+    assert!(view7(&s) == exp.view, "A2: same whole-view result as the binary matrix [±F]");
+    assert!(wf_seg(&s));
+}
+
+//% props=C04,C07 tier=quick kind=P timeout=1200 pair=Segment::apply_seg_mods clause="A2: an unbound alpha in an output matrix is AlphaUnknown and changes nothing"
+#[kani::proof]
+#[kani::unwind(28)]
+fn k3_apply_alpha_unbound() {
+    let o = any_wf_segment();
+    let i: usize = kani::any();
+    kani::assume(i < 26);
+    let k: usize = kani::any();
+    kani::assume(k < 8);
+    let inv: bool = kani::any();
+    let on_feat: bool = kani::any();
+    let mut feats = [None; 26];
+    let mut nodes = [None; 8];
+    if on_feat { feats[i] = Some(ModKind::Alpha(if inv { AlphaMod::InvAlpha('α') } else { AlphaMod::Alpha('α') })); }
+    else { nodes[k] = Some(ModKind::Alpha(AlphaMod::Alpha('α'))); }
+    let empty = new_alphas();
+    let mut t = o;
+    let r2 = t.apply_seg_mods(&empty, nodes, feats, pos0(), false);
+    assert!(matches!(r2, Err(RuleRuntimeError::AlphaUnknown(_))), "A2: unbound alpha in the output is AlphaUnknown");
+    assert!(t == o);
+}
+
+//% props=C04,C07,C08 tier=quick kind=P timeout=1200 pair=Segment::apply_seg_mods clause="A2: node / place alphas copy the captured node(s); documented errors otherwise"
+#[kani::proof]
+#[kani::unwind(28)]
+fn k3_apply_alpha_node() {
+    let o = any_wf_segment();
+    let k: usize = kani::any();
+    kani::assume(k < 8);
+    let node = NodeKind::from_usize(k);
+    let a = any_alpha_value();
+    if let Alpha::Node(n, v) = &a { if *n == NodeKind::Root || *n == NodeKind::Laryngeal { kani::assume(v.unwrap() <= 7); } }
+    let alphas = new_alphas();
+    alphas.borrow_mut().insert('β', a.clone());
+    let mut nodes = [None; 8];
+    nodes[k] = Some(ModKind::Alpha(AlphaMod::Alpha('β')));
+    let mut s = o;
+    let r = s.apply_seg_mods(&alphas, nodes, [None; 26], pos0(), false);
+    let ov = view7(&o);
+    let nv = view7(&s);
+    match &a {
+        Alpha::Node(n, v) => {
+            if *n == node {
+                assert!(r.is_ok());
+                let mut j = 0;
+                while j < 7 { assert!(nv[j] == if j == slot(node) { *v } else { ov[j] }, "node alpha copies exactly that node"); j += 1; }
+            } else {
+                assert!(matches!(r, Err(RuleRuntimeError::AlphaIsNotSameNode(_))));
+                assert!(s == o);
+            }
+        }
+        Alpha::Place(pm) => {
+            let want = [pm.lab, pm.cor, pm.dor, pm.phr];
+            if k < 3 {
+                assert!(matches!(r, Err(RuleRuntimeError::NodeCannotBeSet(..))));
+                assert!(s == o);
+            } else {
+                assert!(r.is_ok());
+                assert!(nv[0] == ov[0] && nv[1] == ov[1] && nv[2] == ov[2], "place alpha leaves the major nodes alone");
+                let mut j = 0;
+                while j < 4 {
+                    let copied = k == 3 || k == 4 + j;
+                    assert!(nv[3 + j] == if copied { want[j] } else { ov[3 + j] }, "place alpha copies all four sub-nodes (or the one named)");
+                    j += 1;
+                }
+            }
+        }
+        _ => { assert!(matches!(r, Err(RuleRuntimeError::AlphaIsNotNode(_)))); assert!(s == o); }
+    }
+    if r.is_ok() { assert!(wf_seg(&s), "wf preserved by alpha application"); }
+    // inverse alpha on a node is refused
+    let mut inv = [None; 8];
+    inv[k] = Some(ModKind::Alpha(AlphaMod::InvAlpha('β')));
+    let mut t = o;
+    assert!(matches!(t.apply_seg_mods(&alphas, inv, [None; 26], pos0(), false), Err(RuleRuntimeError::AlphaNodeAssignInv(_))));
+    assert!(t == o);
+}
+
+//% props=C04,C08 tier=quick kind=P pair=Segment::match_modifiers,Segment::apply_diacritic_payload,Segment::check_and_apply_diacritic,Segment::as_modifiers clause="diacritic-side copies of match / apply agree with the same spec"
+#[kani::proof]
+#[kani::unwind(28)]
+fn k3_diacritic_side() {
+    let o = any_wf_segment();
+    let mut dm = DiaMods::new();
+    let mut nodes = any_bin_nodes();
+    nodes[0] = None; nodes[1] = None; nodes[2] = None; nodes[3] = None; // payloads never name major nodes or Place (debug_assert in the code)
+    dm.nodes = nodes;
+    dm.feats = any_bin_feats();
+    // match: true iff every named feature / node has the named value; absent node matches neither
+    let got = o.match_modifiers(&dm).is_ok();
+    let ov = view7(&o);
+    let mut want = true;
+    let mut i = 0;
+    while i < 26 {
+        let (n, m) = MASK_TABLE[i];
+        let v = ov[slot(n)];
+        if dm.feats[i] == POS { want = want && v.is_some() && v.unwrap() & m == m }
+        if dm.feats[i] == NEG { want = want && v.is_some() && v.unwrap() & m == 0 }
+        i += 1;
+    }
+    let mut k = 4;
+    while k < 8 {
+        if dm.nodes[k] == POS { want = want && ov[k - 1].is_some() }
+        if dm.nodes[k] == NEG { want = want && ov[k - 1].is_none() }
+        k += 1;
+    }
+    assert!(got == want, "M1 (diacritic copy): matrix matches iff every named feature/node has the named value");
+    // apply: same whole-view spec as apply_seg_mods
+    let mut s = o;
+    s.apply_diacritic_payload(&dm);
+    let exp = expected(&o, &dm.nodes, &dm.feats);
+    let gv = view7(&s);
+    let mut j = 0;
+    // (a payload's +node re-creates the node empty, unlike a rule matrix which preserves a present node: not compared)
+    while j < 7 { if !exp.contradictory[j] && !(j >= 3 && dm.nodes[j + 1] == POS) { assert!(gv[j] == exp.view[j], "payload application = matrix application"); } j += 1; }
+    assert!(wf_seg(&s), "wf preserved by diacritic payloads");
+    // as_modifiers describes the segment exactly: it matches itself
+    let am = o.as_modifiers();
+    let mut dm2 = DiaMods::new();
+    dm2.feats = am.feats;
+    let mut q = 4;
+    while q < 8 { dm2.nodes[q] = am.nodes[q]; q += 1; }
+    assert!(o.match_modifiers(&dm2).is_ok(), "a segment matches its own as_modifiers()");
+    assert!(am.nodes[3] == if o.place.raw_for_verif().is_some() { POS } else { NEG });
+}
